@@ -99,6 +99,11 @@ Theorem C04_gen_wallet_data_refine :
      (s_WalletDataHighloadV2, d_wallet_DataHighloadV2); (s_WalletDataV5R1, d_wallet_DataV5R1)] = true.
 Proof. vm_compute. reflexivity. Qed.
 
+(* the key of the suspended-address dictionary: the workchain is a 32-bit two's complement field
+   (a negative workchain is sign-extended: -1 is FFFFFFFF) *)
+Theorem C04_gen_address_key_refines : ok s_AddressWithWorkchain d_tlb_AddressWithWorkchain = true.
+Proof. vm_compute. reflexivity. Qed.
+
 (** Where a symmetric edit (swapped fields, changed width or tag on both sides) would be
     invisible: the struct / union types of package tlb that have a descriptor but NO schema
     obligation.  The list is printed on every run and may not grow silently. *)
@@ -108,7 +113,7 @@ Definition first_obligations : list string :=
    "tlb.AccStatusChange"; "tlb.ComputeSkipReason"; "tlb.HashUpdate"; "tlb.StorageUsed"; "tlb.TrStoragePhase";
    "tlb.TrCreditPhase"; "tlb.TrComputePhase"; "tlb.TrActionPhase"; "tlb.TrBouncePhase"; "tlb.SplitMergeInfo";
    "tlb.TransactionDescr"; "tlb.Transaction"; "wallet.SignedMsgBody"].
-Definition with_obligation : list string := first_obligations ++ map fst more_obligations.
+Definition with_obligation : list string := "tlb.AddressWithWorkchain" :: first_obligations ++ map fst more_obligations.
 
 Definition is_compound (d : ty) : bool := match d with TStruct (_ :: _) | TSum _ => true | _ => false end.
 Definition in_tlb_package (nm : string) : bool := String.prefix "tlb." nm.
@@ -117,7 +122,7 @@ Definition without_obligation : list string :=
   map fst (filter (fun p => in_tlb_package (fst p) && is_compound (snd p)
                             && negb (existsb (String.eqb (fst p)) with_obligation)) tlb_types).
 
-Theorem C04_gen_unpinned_types_bounded : Nat.leb (List.length without_obligation) 34 = true.
+Theorem C04_gen_unpinned_types_bounded : Nat.leb (List.length without_obligation) 33 = true.
 Proof. vm_compute. reflexivity. Qed.
 
 Eval vm_compute in ("tlb struct/union types with a descriptor but no block.tlb obligation yet", without_obligation).
